@@ -4,7 +4,7 @@
    hist <event>*
      C / Cu                              connect + Hello (Cu: as a uid that is neither root nor the bus's own)
      D.<c>                               disconnect
-     S.<c>.<c|r|e|s>.<dest>.<iface>.<member>.<serial>.<rserial>.<err>.<noreply>.<noauto>
+     S.<c>.<c|r|e|s|t<n>>.<dest>.<iface>.<member>.<serial>.<rserial>.<err>.<noreply>.<noauto>
      R.<c>.<serial>.<name>.<dnq>         RequestName (flags 0 or DO_NOT_QUEUE)
      L.<c>.<serial>.<name>               ReleaseName
      A.<c>.<serial>.<filter>             AddMatch
@@ -39,13 +39,15 @@ let parse_name (s : string) : name =
   | 'n' -> NWk (ni (tail s))
   | _ -> failwith ("name " ^ s)
 let parse_oname s = if s = "-" then None else Some (parse_name s)
-let parse_type = function "c" -> TCall | "r" -> TReturn | "e" -> TError | "s" -> TSignal | s -> failwith ("type " ^ s)
+let parse_ktype = function "c" -> KCall | "r" -> KReturn | "e" -> KError | "s" -> KSignal | s -> failwith ("type " ^ s)
+(* t<n>: a type byte that is none of the four defined ones *)
+let parse_type s = if String.length s > 1 && s.[0] = 't' then TOther (ni (tail s)) else TKnown (parse_ktype s)
 let parse_on s = if s = "-" then None else Some (ni s)
 
 let parse_filter (s : string) : flt =
   match String.split_on_char '/' s with
   | [t; sd; d; i; m] ->
-      { f_type = (if t = "-" then None else Some (parse_type t)); f_sender = parse_oname sd; f_dest = parse_oname d;
+      { f_type = (if t = "-" then None else Some (parse_ktype t)); f_sender = parse_oname sd; f_dest = parse_oname d;
         f_iface = parse_on i; f_member = parse_on m }
   | _ -> failwith ("filter " ^ s)
 
@@ -69,7 +71,8 @@ let parse_event (tok : string) : event =
   | _ -> failwith ("event " ^ tok)
 
 let show_name = function NDriver -> "d" | NUniq c -> "u" ^ string_of_int (int_of_n c) | NWk k -> "n" ^ string_of_int (int_of_n k)
-let show_type = function TCall -> "c" | TReturn -> "r" | TError -> "e" | TSignal -> "s"
+let show_type = function TKnown KCall -> "c" | TKnown KReturn -> "r" | TKnown KError -> "e" | TKnown KSignal -> "s"
+                       | TOther n -> "t" ^ string_of_int (int_of_n n)
 let show_arg = function AName n -> show_name n | AEmpty -> "e" | ANum k -> "#" ^ string_of_int (int_of_n k)
 
 let show_msg (m : bmsg) : string =
